@@ -56,6 +56,10 @@ def fc(broken, flat):
     return ('fc', broken, flat)
 
 
+def sh(key, d):
+    return ('sh', key, d)
+
+
 def number(shape):
     """Number text leaves and offset variables left to right."""
     nt = [0]
@@ -83,7 +87,13 @@ def number(shape):
             return ('fc', walk(s[1]), walk(s[2]))
         if k == 'ann':
             return ('ann', s[1], walk(s[2]))
+        if k == 'sh':
+            # every occurrence of a shared sub-document gets the SAME numbering
+            if s[1] not in shared:
+                shared[s[1]] = walk(s[2])
+            return ('sh', s[1], shared[s[1]])
         return s
+    shared = {}
     return walk(shape)
 
 
@@ -106,6 +116,8 @@ def show(s):
         return 'fc(b=%s,f=%s)' % (show(s[1]), show(s[2]))
     if k == 'ann':
         return 'ann%d(%s)' % (s[1], show(s[2]))
+    if k == 'sh':
+        return 'shared%s(%s)' % (s[1], show(s[2]))
     return repr(s)
 
 
@@ -199,6 +211,15 @@ def curated_full():
     add(('cat1-grp', cat(grp(cat(a, LINE, a)))))
     add(('cat1-hard', grp(cat(a, LINE, cat(HARD), a))))
     add(('fill1-ab', grp(cat(a, LINE, fill(ab(cat(a, LINE, a)))))))
+    # the same document object used at two places (different indentation / column)
+    _al = align(cat(a, LINE, a))
+    add(('shared-align', cat(nest(cat(a, HARD, sh('A', _al)), off=('c', 4)), HARD, S('....'), sh('A', _al))))
+    _hg = hang(cat(a, HARD, a))
+    add(('shared-hang', cat(a, S(' '), sh('H', _hg), HARD, nest(cat(a, S(' '), sh('H', _hg))))))
+    _g = grp(cat(a, LINE, a))
+    add(('shared-grp', cat(sh('G', _g), HARD, nest(cat(a, a, sh('G', _g))))))
+    _fc = fc(cat(a, HARD, a), a)
+    add(('shared-fc', cat(grp(sh('F', _fc)), HARD, ab(sh('F', _fc)))))
     add(('nils', cat(a, S(''), NIL, a)))
     add(('grp-nil', cat(a, grp(NIL), a)))
     add(('nest-nil', cat(a, nest(NIL), a)))
@@ -257,6 +278,11 @@ def curated_classic():
     add(('grp-last-text', cat(a, LINE, grp(cat(a, LINE, a)))))
     add(('grp-in-align-only', grp(align(cat(a, LINE, a)))))
     add(('grp-in-hang-only', grp(hang(cat(a, LINE, a, SOFT, a)))))
+    # a flat group followed on the same line by a more deeply indented group
+    add(('grp-then-deeper-grp', cat(grp(cat(a, LINE, a)), nest(grp(cat(LINE, a))))))
+    add(('grp-then-deeper-grp-2', cat(grp(cat(a, LINE, a)), S(','), nest(grp(cat(LINE, a, LINE, a)), off=('c', 6)))))
+    add(('grp-then-aligned-grp', cat(grp(cat(a, SOFT, a)), S(' '), align(grp(cat(a, LINE, a))))))
+    add(('grp-then-deeper-grp-in-grp', grp(cat(grp(cat(a, LINE, a)), nest(grp(cat(LINE, a, LINE, a)))))))
     add(('grp-on-shallower-line', nest(cat(a, nest(cat(HARD, a), off=('c', -2)), grp(cat(a, LINE, a))), off=('c', 4))))
     add(('grp-in-align', cat(a, align(cat(grp(cat(a, LINE, a)), HARD, a)))))
     return out + [(n, number(s)) for n, s in extra]
